@@ -17,6 +17,10 @@ CLAIMS = {
     "C04": ("definitions in spec Tree, cross-lemmas checked by TLC on every shape; every (shape, node) and node tuple emitted as vector and replayed", "Exhaustive over all ordered forests with <= 6 (8) nodes.", "6/C04"),
     "C05": ("definitional orders vs transcribed algorithms (IterAlgo) proved equal by TLC on all shapes; vectors replayed", "Exhaustive over all ordered forests with <= 7 (9) nodes and every start node.", "6/C05"),
     "C06": ("Admitted/Restrict definition vs transcribed algorithms proved equal by TLC for every stop set x filter set x maxlevel; vectors replayed; judged relative to the observed unrestricted traversal", "Exhaustive over all trees <= 4 (5) nodes with all subsets, larger trees with small subsets.", "6/C06"),
+    "C07": ("Get of spec Resolver is the statement itself; round-trip lemmas Lem_Get checked by TLC; every (tree, names, start, path, flags) vector replayed on four class variants; judged by TLC (TraceResolver)",
+            "Exhaustive over trees <= 4 nodes x 8 naming schemes x paths <= 2 (3) components; found and repaired the relax AttributeError defect.", "6/C07"),
+    "C08": ("property predicates RelaxedOK/StrictOK/DeadEnd + character-level Match; as-built recursion AGlob proved to satisfy them by TLC (Thm_Glob); vectors replayed in three cache states; observations judged by TLC",
+            "Exhaustive over trees <= 3-4 nodes x naming schemes x patterns <= 2 (3) components incl. wildcards and '**'; found and repaired the literal-component ChildResolverError defect.", "6/C08"),
     "C14": ("FindAll/Find definitions over C06's VisitPre; vectors through anytree.search and anytree.cachedsearch; judged relative to observed PreOrderIter", "Exhaustive over forests <= 4 (5) nodes, all count bounds, all attribute assignments.", "6/C14"),
     "C15": ("Walk definition + Lem_Walk (simple path, mirror) checked by TLC; all ordered pairs replayed", "Exhaustive over all forests <= 6 (8) nodes and all ordered node pairs.", "6/C15"),
     "C16": ("declarative IdealLog/Observes (NodeOpsProps) checked against the interpreter by TLC (Thm_C16); complete hook logs with in-hook snapshots compared on every transition", "Exhaustive within bounds; hook sequences of refused/aborted children assignments are deliberately unconstrained.", "6/C16"),
